@@ -30,7 +30,7 @@ def run(ctx):
         obj = json.load(open(ctx.replay))
         return progcheck.replay_file(ctx, ctx.replay, project=project_for(obj["scenario"]["kind"]))
     thorough = ctx.tier == "thorough"
-    for dev in ("RangeToNodeStart", "TrailAfterDecl", "OnceConsumesSlot"):
+    for dev in ("RangeToNodeStart", "TrailAfterDecl", "OnceConsumesSlot", "FileDocOnly", "LastMarkerOnly"):
         r = ctx.tlc("Scope", cfg("quick", emit=False, dev='{"%s"}' % dev, live=False), label="c07_dev_" + dev, allow_violation=True, count=False)
         if r["violated"] != "Exact":
             raise vlib.ToolError("deviation %s does not violate Exact: vacuous" % dev)
@@ -50,13 +50,13 @@ def run(ctx):
         items = []
         for i, sc in enumerate(group):
             prog, exp, _pos = gen_scope.build_scope(sc, "C07_%s_%d" % (kind, i))
-            meta = {k: sc[k] for k in ("kind", "slot", "list", "cls")}
+            meta = {k: sc[k] for k in ("kind", "slot", "slot2", "list", "cls")}
             meta["removed"] = sorted(set(sc["base"]) - set(sc["expect"]))
             meta["moved_in"] = sorted(set(sc["expect"]) - set(sc["base"]))
             items.append((prog, exp, meta))
         rep.check(items, project=proj)
-        rep.settle(project=proj, describe=lambda m: "kind %s, comment in slot %s (%s) with list %s: the specification removes %s%s"
-                   % (m["kind"], m["slot"], m["cls"], m["list"], m["removed"], (" and moves the report to %s" % m["moved_in"]) if m["moved_in"] else ""))
+        rep.settle(project=proj, describe=lambda m: "kind %s, comment in slot %s%s (%s) with list %s: the specification removes %s%s"
+                   % (m["kind"], m["slot"], (" and " + m["slot2"]) if m.get("slot2", "none") != "none" else "", m["cls"], m["list"], m["removed"], (" and moves the report to %s" % m["moved_in"]) if m["moved_in"] else ""))
         run_n += rep.run
         nontrivial += sum(1 for it in items if it[2]["removed"])
         samples += [s for s in rep.samples if s["scenario"]["removed"]][:1] if len(samples) < 3 else []
